@@ -101,6 +101,38 @@ void reader_side(sim::RunCtx& ctx) {
         exec::ReadChunk rc = exec::read_chunk_whole(o->r, (int)g, (int)c, t.cols[c].type, t.cols[c].tlen, t.cols[c].max_def, (int64_t)t.rgs[g].cols[c].entries());
         exec::compare_chunk(rc, t.rgs[g].cols[c], t.cols[c], exec::mode_name(mode), (int)g, (int)c);
     }
+    // the schema of a nested file handed to the writer (the natural way to copy a file): the writer either refuses it or writes the
+    // tree with the schema's own levels - flattening it silently gives wrong levels and reads past the caller's dense value arrays
+    if (maxdepth >= 2 && !t.rgs.empty() && t.rgs[0].rows > 0 && (L.rng_seed & 3) == 0) {
+        bool writable = true; for (auto& c : t.cols) writable = writable && c.type != T_I96;
+        if (writable) {
+            const std::string wpath = SIMDISK "c17w.parquet";
+            carquet_error_t werr = CARQUET_ERROR_INIT;
+            carquet_writer_t* w = cq::writer_create(wpath.c_str(), s, nullptr, &werr);
+            if (!w) { exec::check_error_struct(werr, "writer_create"); SIM_COUNT("probe.writer_refuses_nested_schema"); }
+            else {
+                bool all_ok = true;
+                for (size_t c = 0; c < t.cols.size() && all_ok; c++) {
+                    const Chunk& ch = t.rgs[0].cols[c];
+                    auto pk = exec::pack_values(t.cols[c], ch.vals, 0, ch.vals.size());
+                    all_ok = cq::writer_write_batch(w, (int32_t)c, pk->buf.get(), (int64_t)ch.def.size(), ch.def.data(), ch.rep.data()) == CARQUET_OK;
+                }
+                carquet_status_t cs = cq::writer_close(w);
+                if (all_ok && cs == CARQUET_OK) {
+                    std::vector<uint8_t> img = sim::disk_file(wpath);
+                    ref::ReadOpts ro; ro.strict = false;
+                    ref::Parsed P = ref::parse_file(img.data(), img.size(), ro);
+                    SIM_CHECK(P.ok, "writer.nested_schema_file_invalid", "the schema of a nested file (depth %d) was handed to the writer, every call returned OK, and the independent reader cannot read the result: %s", maxdepth, P.error.c_str());
+                    SIM_CHECK(P.table.cols.size() == t.cols.size(), "writer.nested_schema_flattened", "written file has %zu leaves, the schema had %zu", P.table.cols.size(), t.cols.size());
+                    for (size_t c = 0; c < t.cols.size(); c++) {
+                        SIM_CHECK(P.table.cols[c].max_def == t.cols[c].max_def && P.table.cols[c].max_rep == t.cols[c].max_rep, "writer.nested_schema_flattened", "leaf %zu ('%s') has levels %d/%d in the written file, %d/%d in the schema the writer was given", c, t.cols[c].name.c_str(), P.table.cols[c].max_def, P.table.cols[c].max_rep, t.cols[c].max_def, t.cols[c].max_rep);
+                        SIM_CHECK(!P.table.rgs.empty() && P.table.rgs[0].cols[c].def == t.rgs[0].cols[c].def && P.table.rgs[0].cols[c].vals == t.rgs[0].cols[c].vals, "writer.nested_schema_content", "leaf %zu: levels or values in the written file differ from what was handed to write_batch", c);
+                    }
+                    SIM_COUNT("probe.nested_schema_written_correctly");
+                }
+            }
+        }
+    }
     o.reset();
     common::end_of_run_checks();
     ctx.evals = 1;
@@ -206,7 +238,7 @@ namespace sim {
 void register_c17() {
     Property p;
     p.id = "C17"; p.level = "exploration";
-    p.rule = "reader-side run: the peer writer emits a file whose schema is a seeded ordered tree (depth <= 6, <= 60 nodes, all REQUIRED/OPTIONAL/REPEATED labelings, 8 physical types, a third of the leaves annotated with a LogicalType that fits the physical type (a third of those stated through the legacy converted_type field alone) - STRING, ENUM, JSON, BSON, UUID, FLOAT16, DATE, TIME, TIMESTAMP, INTEGER, DECIMAL with parameters -, the root sometimes stating a repetition_type as Arrow C++ does) with data shredded under the true levels (1 tree in 40 is the root alone: a table without columns); num_columns, depth-first leaf order, every element accessor (incl. logical type id and parameters against the parquet.thrift field ids), find_column, the node max-level accessors and - through the column reader - the levels actually used are compared with the textbook definition; builder-side run (1 in 6): a seeded history of 0-400 add_column/add_group calls (a third of the columns with a logical type and its parameters) with accessors checked after every step under a realloc-always-moves allocator, then the schema is written and read back; one evaluation = one tree or one builder step; non-trivial = tree has more than one field; distinct = hash of the labelled tree shape";
+    p.rule = "reader-side run: the peer writer emits a file whose schema is a seeded ordered tree (depth <= 6, <= 60 nodes, all REQUIRED/OPTIONAL/REPEATED labelings, 8 physical types, a third of the leaves annotated with a LogicalType that fits the physical type (a third of those stated through the legacy converted_type field alone) - STRING, ENUM, JSON, BSON, UUID, FLOAT16, DATE, TIME, TIMESTAMP, INTEGER, DECIMAL with parameters -, the root sometimes stating a repetition_type as Arrow C++ does) with data shredded under the true levels (1 tree in 40 is the root alone: a table without columns); num_columns, depth-first leaf order, every element accessor (incl. logical type id and parameters against the parquet.thrift field ids), find_column, the node max-level accessors and - through the column reader - the levels actually used are compared with the textbook definition; 1 nested schema in 4 is also handed to the writer, which must refuse it or write the tree with the schema's levels; builder-side run (1 in 6): a seeded history of 0-400 add_column/add_group calls (a third of the columns with a logical type and its parameters) with accessors checked after every step under a realloc-always-moves allocator, then the schema is written and read back; one evaluation = one tree or one builder step; non-trivial = tree has more than one field; distinct = hash of the labelled tree shape";
     p.quick_runs = 25000; p.thorough_runs = 1200000;
     p.run = run_c17;
     p.assumptions = {"leaf names are unique in generated trees; a top-level column must be found by its name and a nested one by its dot-separated path (as the header documents), while a bare leaf name of a nested column may resolve to it or to nothing; paths through names that themselves contain dots are not looked up",
